@@ -49,6 +49,12 @@ type Op struct {
 	IDT  int  `json:"idt,omitempty"`
 	NoTh bool `json:"noth,omitempty"`
 	Pth  int  `json:"pth,omitempty"`
+	// Alt: the message is of the OTHER protocol version than the case's (issue-credential / present-proof v2 <-> v3):
+	// histories mix the two message families on one thread id
+	Alt bool `json:"alt,omitempty"`
+	// Shape (connection protocols, deliver): the captured message is delivered with re-written thread identifiers
+	// (0 = as captured; see connShapes)
+	Shape int `json:"shape,omitempty"`
 }
 
 // Case is a history for one protocol.
@@ -419,15 +425,16 @@ func (w *world) wireIDs(op Op) (id, th, pth string) {
 func (w *world) rawMessage(op Op) service.DIDCommMsgMap {
 	w.seq++
 	vi := 0
+	v3 := w.v3 != (op.Alt && w.proto != "intro")
 
-	if w.v3 {
+	if v3 {
 		vi = 1
 	}
 
 	typ := w.msgTypes[op.Msg][vi]
 	id, th, pth := w.wireIDs(op)
 
-	if w.v3 && w.proto != "intro" {
+	if v3 && w.proto != "intro" {
 		body := map[string]interface{}{}
 		if op.Flag {
 			body["will_confirm"] = true
@@ -1048,7 +1055,7 @@ func coqCase(c *Case, obs []Obs) string {
 			}
 
 			ops = append(ops, fmt.Sprintf("Wire %s %d %s %s %s %s %s %d %s %s", hx.CoqBool(op.Out), c09tab.Index(c09tab.Msgs[c.Proto], op.Msg),
-				hx.CoqBool(c.V3), hx.CoqBool(op.Flag), tn.opt(obs[i].WireID), tn.opt(obs[i].WireTh), tn.opt(obs[i].WirePth), fresh,
+				hx.CoqBool(c.V3 != (op.Alt && c.Proto != "intro")), hx.CoqBool(op.Flag), tn.opt(obs[i].WireID), tn.opt(obs[i].WireTh), tn.opt(obs[i].WirePth), fresh,
 				coqFault(op, obs[i]), tape))
 		case "continue":
 			ops = append(ops, fmt.Sprintf("Continue %d%%nat %d %s %s", op.Ev, c09tab.Index(c09tab.Opts[c.Proto], op.Opt),
@@ -1142,6 +1149,12 @@ func (w *world) shutdown() {
 // ---------- running a case ----------
 
 func runCase(tr *hx.Trace, kind string, c *Case, withCoq bool) (key string, lastRes string) {
+	if os.Getenv("C09_LOGCASE") != "" {
+		// development aid: the case being run (a panic in a service goroutine kills the process)
+		b, _ := json.Marshal(c) //nolint:errcheck
+		_ = os.WriteFile(os.Getenv("C09_LOGCASE"), b, 0o600) //nolint:errcheck
+	}
+
 	w := newWorld(c.Proto, c.V3)
 	defer w.shutdown()
 
@@ -1402,7 +1415,7 @@ func introMetaShapes(op Op) []Op {
 }
 
 func explore(tr *hx.Trace, proto string, v3 bool, depth, threads, twoUntil, faultDepth, coqBudget int) {
-	coqFault2, coqWire, wireDepth, coqSubs, subDepth := 0, 0, 2, 0, 2
+	coqFault2, coqWire, wireDepth, coqSubs, subDepth, coqAlt := 0, 0, 2, 0, 2, 0
 	seen := map[string]bool{"": true}
 	frontier := []node{{}}
 	coqUsed := 0
@@ -1451,6 +1464,15 @@ func explore(tr *hx.Trace, proto string, v3 bool, depth, threads, twoUntil, faul
 						wc := &Case{Proto: proto, V3: v3, Ops: append(append([]Op{}, nd.ops...), wo)}
 						runCase(tr, "exhaustive-wire", wc, true)
 					}
+				}
+
+				// the same message in the OTHER protocol version (v2 <-> v3 on one thread id), from every state reached within 3 ops;
+				// these histories are not expanded here (the random histories mix versions at any position)
+				if proto != "intro" && op.Kind == "msg" && op.T == 1 && d < 3 {
+					ao := op
+					ao.Alt = true
+					runCase(tr, "exhaustive-version", &Case{Proto: proto, V3: v3, Ops: append(append([]Op{}, nd.ops...), ao)}, coqAlt < coqBudget)
+					coqAlt++
 				}
 
 				// every fault kind on this op (from this reached state); faulted histories are not expanded
@@ -1540,6 +1562,10 @@ func randomCase(rng *hx.Rng, proto string, v3 bool, maxLen int) *Case {
 				if wo := vs[rng.Intn(len(vs))]; !(proto == "intro" && (wo.Pth > 0 && (!wo.NoTh || wo.IDT > 0) || wo.Out && wo.IDT == -1)) {
 					op = wo
 				}
+			}
+
+			if proto != "intro" && rng.Intn(6) == 0 {
+				op.Alt = !op.Alt
 			}
 
 			c.Ops = append(c.Ops, op)
